@@ -98,7 +98,7 @@ def r2_failure_limit(chk: Check) -> None:
         if fn.qualname != f"{UNIT}:execute":
             continue
         nodes = g.stmt_nodes_containing(c)
-        tests = guard_tests(g, lambda e: "event.status" in unparse(e, 300) and any(isinstance(x, ast.Compare) and isinstance(x.ops[0], ast.In) for x in ast.walk(e)))
+        tests = guard_tests(g, lambda e: phas("$e.status in $_", e))
         members: set[str] = set()
         dom = False
         for tid, e in tests:
@@ -134,7 +134,7 @@ def r2_failure_limit(chk: Check) -> None:
     chk.decide(bool(flag) and isinstance(flag[0].value, ast.Constant) and flag[0].value.value is True, "C12.R2", cf, "has_reached_the_failure_limit = True", "the flag is not set", cf.loc())
     # plan: skipped phases
     ex = P.func("engine/core.py:ExecutionPlan.execute")
-    reason_sets = [n for n in walk_body(ex.node) if isinstance(n, ast.Assign) and unparse(n.targets[0]) == "phase.skip_reason"]
+    reason_sets = [n for n in walk_body(ex.node) if isinstance(n, ast.Assign) and isinstance(n.targets[0], ast.Attribute) and n.targets[0].attr == "skip_reason"]
     ok = bool(reason_sets)
     for n in reason_sets:
         p = parent(n)
@@ -182,7 +182,9 @@ def r3_plumbing(chk: Check) -> None:
         key, val = const_str(row.elts[0]), dotted(row.elts[1])
         chk.decide(key == val, "C12.R3", ps, f"settings row ({key!r}, {val})", f"hypothesis setting `{key}` is fed from `{val}`", ps.loc(row))
     final = simple_return_expr(ps)
-    chk.decide(bool(final) and isinstance(final[0], ast.Call) and any(k.arg is None and dotted(k.value) == "kwargs" for k in final[0].keywords), "C12.R3", ps, "settings(**kwargs)", "collected settings are not passed to hypothesis.settings", ps.loc())
+    # the mapping built from the rows is what gets splatted into hypothesis.settings(...)
+    row_maps = {name_of(b, "v") for n_, b in pfind("$v = $X", ps.node) if isinstance(b["X"], (ast.DictComp, ast.Dict)) and any(any(r is x for x in ast.walk(b["X"])) for r in rows)}
+    chk.decide(bool(final) and isinstance(final[0], ast.Call) and any(k.arg is None and dotted(k.value) in row_maps for k in final[0].keywords), "C12.R3", ps, "settings(**kwargs)", "collected settings are not passed to hypothesis.settings", ps.loc())
     mx = any(const_str(row.elts[0]) == "max_examples" for row in rows)
     chk.decide(mx, "C12.R3", ps, "max_examples row present", "max_examples is never put into the Hypothesis settings", ps.loc())
     # worker: settings=ctx.config.execution.hypothesis_settings ; create_test: merge + setattr
@@ -196,7 +198,11 @@ def r3_plumbing(chk: Check) -> None:
     sets = [c for c in body_calls(ct) if dotted(c.func) == "setattr" and len(c.args) == 3 and unparse(c.args[1]) == "SETTINGS_ATTRIBUTE_NAME"]
     chk.decide(bool(merges), "C12.R3", ct, "user settings merged into the test's settings", "config.settings (max_examples, phases, ...) is no longer merged into the Hypothesis test", ct.loc())
     if sets:
-        chk.decide(unparse(sets[0].args[2]) == "settings" and unparse(sets[0].args[0]) == "hypothesis_test", "C12.R3", ct, "setattr(hypothesis_test, SETTINGS, settings)", "merged settings are not installed on the test", ct.loc(sets[0]))
+        # installed object = the variable the merges were written to; installed on = what create_test returns
+        merged_vars = {t.id for c in merges for st_ in [stmt_of(c)] if isinstance(st_, ast.Assign) for t in st_.targets if isinstance(t, ast.Name)}
+        returned = {r.id for r in simple_return_expr(ct) if isinstance(r, ast.Name)}
+        a0, a2 = sets[0].args[0], sets[0].args[2]
+        chk.decide(isinstance(a2, ast.Name) and a2.id in merged_vars and isinstance(a0, ast.Name) and a0.id in returned, "C12.R3", ct, "setattr(hypothesis_test, SETTINGS, settings)", "merged settings are not installed on the test", ct.loc(sets[0]))
         # the installing setattr is reached on every normal path
         w = g.path([g.entry], [g.exit], avoid=[n for s in sets for n in g.stmt_nodes_containing(s)], edge_ok=lambda a, b, lbl: not lbl.startswith("exc:"))
         chk.decide(w is None, "C12.R3", ct, "settings installed on every path", "create_test can return without installing the merged settings", ct.loc(sets[0]))
@@ -213,13 +219,15 @@ def r3_plumbing(chk: Check) -> None:
     v = kwarg(runs[0], "settings") if runs else None
     chk.decide(v is not None and unparse(v) == "config.execution.hypothesis_settings", "C12.R3", loop, "state machine run(settings=engine settings)", f"the state machine runs with `{unparse(v)}`: step count / max examples are not the configured ones", loop.loc())
     ov = P.func(f"{ST_EX}:_get_hypothesis_settings_kwargs_override")
+    defaults = set(defined_by(ov, "$v = hypothesis.settings()")) | {"hypothesis.settings.default"}
+    user = params_of(ov.node)[0]
     for n in walk_body(ov.node):
         if isinstance(n, ast.If) and isinstance(n.test, ast.Compare) and isinstance(n.test.ops[0], ast.Eq):
             l, r = unparse(n.test.left), unparse(n.test.comparators[0])
             attr = l.rsplit(".", 1)[-1]
             keys = [const_str(t.slice) for s in n.body if isinstance(s, ast.Assign) for t in s.targets if isinstance(t, ast.Subscript)]
             vals = [unparse(s.value).rsplit(".", 1)[-1] for s in n.body if isinstance(s, ast.Assign)]
-            good = l.startswith("settings.") and r == f"hypothesis_default.{attr}" and keys == [attr] and vals == [attr]
+            good = l.startswith(f"{user}.") and any(r == f"{d_}.{attr}" for d_ in defaults) and keys == [attr] and vals == [attr]
             chk.decide(good, "C12.R3", ov, f"override {attr} only when the user left the Hypothesis default", f"`{unparse(n.test)}` -> {keys}={vals}: a user-configured value is overwritten or the wrong key is set", ov.loc(n))
         elif isinstance(n, ast.If) and isinstance(n.test, ast.Compare) and isinstance(n.test.ops[0], ast.NotEq):
             chk.violation("C12.R3", ov, f"override when `{unparse(n.test)}`", "the user's explicit setting is replaced by the state-machine default", ov.loc(n))
@@ -342,7 +350,10 @@ def r5_ratelimit(chk: Check) -> None:
             continue
         for c in body_calls(fn):
             d = dotted(c.func) or ""
-            if d in ("session.request", "client.open", "session.send") or (d.endswith(".request") and "session" in d) :
+            is_send = isinstance(c.func, ast.Attribute) and c.func.attr in ("request", "open", "send") and isinstance(c.func.value, ast.Name) and any(
+                "session" in t_ or "get_client(" in t_ for t_ in canon(fn, c.func.value))
+            if is_send:
+                d = f"<session>.{c.func.attr}"  # type: ignore[union-attr]
                 n_sites += 1
                 construct = f"{d}(...) under ratelimit"
                 if rel == "engine/phases/probes.py":
